@@ -134,20 +134,28 @@ fn to_py(core: &Core, ind: usize) -> String {
         Core::Assign { left, right, op } => {
             format!("{} {op} {}", to_py(left, ind), to_py(right, ind))
         }
-        Core::VarDef { var, expr, ty } => format!(
-            "{}{} = {}",
-            to_py(var, ind),
-            if let Some(ty) = ty {
-                format!(": {}", to_py(ty, ind))
-            } else {
-                String::new()
-            },
-            if let Some(expr) = expr {
-                to_py(expr, ind)
-            } else {
-                String::from("None")
-            }
-        ),
+        Core::VarDef { var, expr, ty } => {
+            // Python allows an annotation on a single target only, and a tuple target needs a tuple
+            let tuple_len = match var.as_ref() {
+                Core::Tuple { elements } | Core::TupleLiteral { elements } => Some(elements.len()),
+                _ => None,
+            };
+
+            format!(
+                "{}{} = {}",
+                to_py(var, ind),
+                match ty {
+                    Some(ty) if tuple_len.is_none() => format!(": {}", to_py(ty, ind)),
+                    _ => String::new(),
+                },
+                match (expr, tuple_len) {
+                    (Some(expr), _) => to_py(expr, ind),
+                    (None, Some(1)) => String::from("(None,)"),
+                    (None, Some(len)) => format!("({})", vec!["None"; len].join(", ")),
+                    (None, None) => String::from("None"),
+                }
+            )
+        }
 
         Core::FunArg {
             vararg,
